@@ -1,7 +1,101 @@
 """C08 -- bounded run-time contracts on generated CAMx files (rtc/camx.py, reference codec rtc/refcodec.py)."""
 from .common import *   # noqa
 
-CONTRACTS = []
+import z3
+from pyvc.nparr import sym_array, SArr
+
+AT = 'ArrayTransforms.py'
+
+
+class ConvertTime(Contract):
+    """ConvertCAMxTime(date, time, nvars) -- the decoder every memory-mapped CAMx reader uses for its time flags -- for records
+    of ANY number n >= 1 and any number of variable columns: date entries are two-digit-year julian dates YYJJJ, time entries
+    whole hours, either as hours (0..23, gridded formats) or as HHMM (0..2300, meteorological formats):
+      TFLAG[t, v, 0] = century(YY) + YYJJJ   (70..99 -> 19xx, 00..69 -> 20xx, decided per record)
+      TFLAG[t, v, 1] = HHMMSS of that whole hour,
+    except that an all-midnight file stays 0.  Together with the writer side (YYYYJJJ % century and HHMMSS / 10000, bounded)
+    this is the identity on whole-hour flags of 1970..2069: identical begin/end flags after write + read."""
+    prop = 'C08'
+    target = AT + '::ConvertCAMxTime'
+    max_paths = 60
+
+    def __init__(self, unit):
+        self.unit = unit          # 'hours' | 'HHMM'
+        self.name = 'ConvertCAMxTime[time in %s]' % unit
+
+    def inputs(self, ctx, I):
+        n = ctx.fresh('n')
+        self.n, self.nv = n, ctx.fresh('nvars')
+        self.date = sym_array('date', (n,), 'i')
+        self.time = sym_array('time', (n,), 'f')
+        self.pre = (self.date.buf.get, self.time.buf.get)
+        return dict(date=self.date, time=self.time, nvars=self.nv)
+
+    def requires(self, inp):
+        p = z3.Int('rq_p')
+        d, t = self.date.get(p), self.time.get(p)
+        if self.unit == 'hours':
+            whole = And(ge(t, 0), le(t, 23), eq(t, sym.to_real(sym.trunc(t))))
+        else:
+            whole = And(ge(t, 0), le(t, 2300), eq(t, sym.to_real(mul(sym.floordiv(sym.trunc(t), 100), 100))))
+        return And(ge(self.n, 1), ge(self.nv, 1),
+                   z3.ForAll([p], Implies(And(ge(p, 0), lt(p, self.n)),
+                                          And(ge(d, 1), le(d, 99366), ge(sym.mod(d, 1000), 1), le(sym.mod(d, 1000), 366), whole))))
+
+    def small(self, inp):
+        return And(le(self.n, 2), le(self.nv, 2))
+
+    def ensures(self, inp, res, I):
+        if not isinstance(res, SArr) or res.ndim != 3:
+            return [('returns TFLAG (steps, variables, 2)', False)]
+        t, v = z3.Int('t'), z3.Int('v')
+        rng = And(ge(t, 0), lt(t, self.n), ge(v, 0), lt(v, self.nv))
+        d0, t0 = self.pre[0]((t,)), self.pre[1]((t,))
+        hour = sym.trunc(t0) if self.unit == 'hours' else sym.floordiv(sym.trunc(t0), 100)
+        return [('shape', And(eq(res.shape[0], self.n), eq(res.shape[1], self.nv), eq(res.shape[2], 2))),
+                ('date flag = century + YYJJJ, per record', Implies(rng, eq(res.get(t, v, 0), add(d0, sym.ite(lt(d0, 70000), 2000000, 1900000))))),
+                ('time flag = HHMMSS of the whole hour', Implies(rng, eq(res.get(t, v, 1), mul(hour, 10000)))),
+                ('dimensions', tuple(res.attrs.get('dimensions', ())) == ('TSTEP', 'VAR', 'DATE-TIME')),
+                ('inputs-unchanged', Implies(And(ge(t, 0), lt(t, self.n)), And(eq(self.date.buf.get((t,)), d0), eq(self.time.buf.get((t,)), t0))))]
+
+
+    # -- replay on the real function -----------------------------------------------------------------------------------
+    def concretize(self, model, inp):
+        from pyvc.verify import model_value
+        return dict(unit=self.unit, nvars=model_value(model, self.nv), date=self.date.model_value(model), time=self.time.model_value(model))
+
+    def concretize_without_model(self, inp):
+        return dict(unit=self.unit, nvars=2, date=None, time=None)
+
+    def replay(self, c):
+        import numpy as np
+        import_real()
+        from PseudoNetCDF.ArrayTransforms import ConvertCAMxTime
+        cands = []
+        if c.get('date') and c['date'].get('values') and c.get('time') and c['time'].get('values') is not None:
+            try:
+                cands.append(([int(x) for x in c['date']['values']], [float(fl(x)) for x in c['time']['values']]))
+            except Exception:
+                pass
+        hrs = [22., 23., 0., 1.]
+        cands.append(([99365, 99365, 1, 1], hrs if c['unit'] == 'hours' else [h * 100 for h in hrs]))     # 1999-12-31 -> 2000-01-01
+        cands.append(([2154], [0.]))
+        out = None
+        for d, t in cands:
+            nv = max(1, min(int(c.get('nvars') or 1), 4))
+            d0, t0 = np.array(d, 'i'), np.array(t, 'f')
+            res = np.asarray(ConvertCAMxTime(d0.copy(), t0.copy(), nv))
+            hour = [int(x) if c['unit'] == 'hours' else int(x) // 100 for x in t]
+            exp = [(dd + (2000000 if dd < 70000 else 1900000), h * 10000) for dd, h in zip(d, hour)]
+            ok = res.shape == (len(d), nv, 2) and all(tuple(int(x) for x in res[i, v]) == exp[i] for i in range(len(d)) for v in range(nv))
+            r = (ok, dict(date=d, time=t, nvars=nv, got=res[:, 0].tolist(), expected=exp))
+            if not ok:
+                return r
+            out = out or r
+        return out
+
+
+CONTRACTS = [ConvertTime('hours'), ConvertTime('HHMM')]
 
 
 def bounded(tier, seed):
@@ -13,8 +107,15 @@ def bounded_replay(p):
     return False, p.get('what')
 
 META = dict(
-    level='exploration',
-    technique='bounded run-time contract: generated files through library reader/writer, byte comparison of rewrites',
-    text='write/read round trip (bit-exact data, begin/end time flags, grid header, species order) and byte-identical rewrite on generated files of seven CAMx formats.',
-    note='bounded only; reference encoder in rtc/refcodec.py written from the CAMx format description.',
-    assumptions=[], explanation='')
+    level='other',
+    technique='the time-flag decoder ConvertCAMxTime (used by every memory-mapped CAMx reader) proved by pyvc for any number of records; data, headers and the writers by '
+              'bounded run-time contract: generated files through library reader/writer, byte comparison of rewrites, reference codec',
+    text='Proved for ANY number of records and variable columns, two-digit-year julian dates and whole-hour times given as hours or as HHMM: the date flag is century + YYJJJ with the '
+         'century decided per record (70..99 -> 19xx, 00..69 -> 20xx), the time flag is the HHMMSS of the hour, in every variable column, inputs unchanged. Bounded: write/read '
+         'round trip (bit-exact data, begin/end time flags, grid header, species order) and byte-identical rewrite on generated files of the CAMx formats incl. lateral boundary '
+         'files in 5 projections and day / year roll-overs.',
+    note='only the reader half of the time codec is proved; the writers build numpy structured arrays and write them with tofile (outside the deductive subset): layout, '
+         'payload and the writer half of the time codec are bounded only (reference encoder in rtc/refcodec.py written from the CAMx format description).',
+    assumptions=['numpy array construction / swapaxes / in-place arithmetic on views / where / max / all / repeat as modelled in pyvc/nparr.py (trusted)',
+                 'int32 cast of whole numbers is exact'],
+    explanation='mixed: discharged obligations for ConvertCAMxTime + bounded reference-codec round trips')
